@@ -60,7 +60,7 @@ ELEMENTWISE = {"ceil", "floor", "abs", "absolute", "sqrt", "exp", "log", "logica
                "array", "copy", "squeeze", "flatten", "ravel", "int64", "float64", "nan_to_num", "power",
                "logical_and", "logical_or", "logical_xor", "maximum", "minimum", "multiply", "add", "subtract",
                "divide", "equal", "not_equal", "greater", "less", "atleast_1d", "fabs", "round", "to_memory_order"}
-ROW_PRESERVING_METHODS = {"astype", "copy", "squeeze", "flatten", "ravel", "conj", "round", "clip", "__abs__", "view"}
+ROW_PRESERVING_METHODS = {"astype", "copy", "squeeze", "flatten", "ravel", "conj", "round", "clip", "__abs__", "view", "dot"}
 
 
 def sym(name: str) -> sp.Symbol:
@@ -90,6 +90,8 @@ class RowEval:
                 env[p] = Int(sym(p))
             elif "ndarray" in txt:
                 env[p] = Arr(sym(f"rows({p})"))
+            elif txt in ("float", "Union[int, float]", "Union[float, int]"):
+                env[p] = Int(sym(p))
             elif "float" in txt or "bool" in txt or "str" in txt:
                 env[p] = None
             else:
@@ -243,8 +245,8 @@ class RowEval:
             if first.step is None and lo is not None and up is not None and base.rows is not None:
                 if lo == 0:
                     return Arr(sp.Min(up, base.rows), cols, ndim, unique=base.unique)
-                return Arr(None, cols, ndim)
-            return Arr(None, cols, ndim)
+                return Arr(None, cols, ndim, unique=base.unique)
+            return Arr(None, cols, ndim, unique=base.unique and first.step is None)
         k = self.ev(first, env, depth)
         if isinstance(k, Arr):
             if k.tag == "mask":
@@ -416,6 +418,11 @@ class RowEval:
         if base == "tt_union_rows" and len(args) >= 2:
             v = self.ev(args[0], env, depth)
             return Arr(fresh("union"), v.cols if isinstance(v, Arr) else None, 2, unique=True)
+        # ---- a generator callable supplied by the caller, applied to a shape: returns an array of that shape
+        if isinstance(e.func, ast.Name) and e.func.id in getattr(self, "_callable_params", ()) and len(args) == 1:
+            r, c, nd = self.shape_arg(args[0], env, depth)
+            if r is not None:
+                return Arr(r, c, nd)
         # ---- repo functions: inline the callee
         fi = self.resolve(nm, env)
         if fi is not None and depth < self.depth:
@@ -457,6 +464,9 @@ class RowEval:
             self.notes.append(f"path limit in {fi.short}")
             return []
         out = []
+        if depth == 0:
+            self._callable_params = {p for p in fi.params() if "Callable" in (ast.unparse(fi.annotation(p)) if fi.annotation(p) is not None else "")
+                                     or p in ("function_handle",)}
         for items, end in paths:
             if end == "raise":
                 continue
@@ -498,6 +508,8 @@ class RowEval:
 
     def assign(self, t: ast.expr, v: Value, env) -> None:
         if isinstance(t, ast.Name):
+            if isinstance(v, Int) and v.v is None:
+                v = Int(fresh(t.id))  # an unknown integer: opaque, but the same symbol wherever this binding is used
             env[t.id] = v
         elif isinstance(t, (ast.Tuple, ast.List)):
             if isinstance(v, Tup) and len(v.elts) == len(t.elts):
